@@ -9,7 +9,7 @@ def c05(tier):
         {'kind': 'corpus', 'file': 'r7rs.scm', 'count': 0, 'cfgs': 'basic'},
         {'kind': 'cont', 'count': 300 if q else 10000, 'cfgs': 'basic', 'shards': 1 if q else 12},
         # continuations must survive collections: a part of the sessions runs under the C03 schedules
-        {'kind': 'cont', 'count': 40 if q else 1500, 'cfgs': 'gc', 'shards': 1 if q else 6},
+        {'kind': 'cont', 'count': 60 if q else 1500, 'cfgs': 'gc', 'shards': 1 if q else 6},
     ]
 
     import vmt, vlib
@@ -27,7 +27,7 @@ def c05(tier):
 
     return props.cek_property(
         'C05', tier, plan, relevant, extra_check=steps_check, extra_cov=lambda sessions, ends: {'instruction_traces': vcov},
-        rule='sessions of 1-3 blocks drawn from 25 parametrised continuation templates (harness/src/gen_cont.rs): escape from '
+        rule='sessions of 1-3 blocks drawn from 26 parametrised continuation templates (the first block of session i is template i mod 26) (harness/src/gen_cont.rs): escape from '
         'for-each/map/deep recursion, re-entry from later top-level forms with counters, operand positions, '
         'continuations stored in globals/vectors/pairs/closures, nested extents, generators, coroutines, re-entry into '
         'a define; each run in a fresh VM and after unrelated definitions')
